@@ -57,11 +57,17 @@ func classesOf(o *outcome) []string {
 	if o.Transferred > 0 {
 		cl = append(cl, "connection-handed-over")
 	}
-	split := false
+	split, paired := false, false
 	for _, r := range o.Results {
 		if r.Pieces >= 4 && r.ok() {
 			split = true
 		}
+		if r.Paired && r.ok() {
+			paired = true
+		}
+	}
+	if paired {
+		cl = append(cl, "two-outstanding-during-upgrade")
 	}
 	if split {
 		cl = append(cl, "split-frames-during-upgrade")
